@@ -145,6 +145,37 @@ mod verif_bounded_strings {
         }
     }
 
+    // C15 "for every single-field mutation of a valid encoding": the library writes canonical, padded base64; a content whose padding was
+    // stripped (one `=` or all of them) is another spelling of the same bytes and must be refused, or one invitation has several event ids.
+    // Scope: welcomes of groups whose name length is varied until the content carries padding (0..=2 `=`), each with one / all `=` removed.
+    #[test]
+    fn non_canonical_base64_content_is_refused() {
+        let label = "strings_bounded.non_canonical_base64_content_is_refused";
+        let mut seen_padded = false;
+        for extra in 0..6usize {
+            let (ak, bk) = (Keys::generate(), Keys::generate());
+            let (a, b) = (create_test_mdk(), create_test_mdk());
+            let mut cfg = create_nostr_group_config_data(vec![ak.public_key()]);
+            cfg.name = format!("g{}", "x".repeat(extra));
+            let res = a.create_group(&ak.public_key(), vec![create_key_package_event(&b, &bk)], cfg).unwrap();
+            let rumor = res.welcome_rumors[0].clone();
+            let pad = rumor.content.chars().rev().take_while(|c| *c == '=').count();
+            if pad == 0 { continue; }
+            seen_padded = true;
+            for strip in [1usize, pad] {
+                let mut r = rumor.clone(); r.content.truncate(rumor.content.len() - strip); r.id = None; r.ensure_id();
+                let scen = format!("a valid welcome rumor whose base64 content ends in {pad} `=`, with {strip} of them removed");
+                match catch_unwind(AssertUnwindSafe(|| b.process_welcome(&nostr::EventId::from_slice(&[strip as u8 + 1; 32]).unwrap(), &r).is_ok())) {
+                    Err(_) => fail(label, &scen, "process_welcome PANICKED"),
+                    Ok(true) => fail(label, &scen, "process_welcome accepted a non-canonical spelling of the content"),
+                    Ok(false) => {}
+                }
+            }
+            if b.process_welcome(&nostr::EventId::all_zeros(), &rumor).is_err() { fail(label, "the canonical rumor", "is refused"); }
+        }
+        if !seen_padded { panic!("harness: no welcome content with padding was produced (not a counterexample)"); }
+    }
+
     // C15 "whatever the library serialises it parses back ... welcome rumors", over the number of relays of the group: a welcome rumor that
     // create_group hands out must be accepted by the invited user's process_welcome. The case of a group WITHOUT relays FAILS on the unchanged
     // tree (known finding F27: create_group accepts an empty relay list, the rumor then carries an empty `relays` tag, which
@@ -164,6 +195,26 @@ mod verif_bounded_strings {
     }
     #[test]
     fn welcome_of_every_created_group_is_parsed_back() { for n in [1usize, 2, 3] { welcome_round_trip("strings_bounded.welcome_of_every_created_group_is_parsed_back", n); } }
+    // the same for key-package events: what create_key_package_for_event writes, parse_key_package reads -- over the number of relays.
+    // The case of NO relay FAILS on the unchanged tree (known finding F27, second face: the event carries an empty `relays` tag, which
+    // validate_key_package_tags refuses); own test and label.
+    fn key_package_round_trip(label: &str, n: usize) {
+        let mdk = create_test_mdk();
+        let keys = Keys::generate();
+        let relays: Vec<nostr::RelayUrl> = (0..n).map(|i| nostr::RelayUrl::parse(&format!("wss://r{i}.example")).unwrap()).collect();
+        let scen = format!("create_key_package_for_event with {n} relay(s)");
+        let (content, tags, _) = match mdk.create_key_package_for_event(&keys.public_key(), relays) { Ok(x) => x, Err(_) => return };   // refused at creation: nothing was serialised
+        let ev = EventBuilder::new(Kind::MlsKeyPackage, content).tags(tags).sign_with_keys(&keys).unwrap();
+        match catch_unwind(AssertUnwindSafe(|| mdk.parse_key_package(&ev).map(|_| ()).map_err(|e| format!("{e:?}")))) {
+            Err(_) => fail(label, &scen, "parse_key_package PANICKED"),
+            Ok(Err(e)) => fail(label, &scen, &format!("the key-package event the library built is refused by parse_key_package: {e}")),
+            Ok(Ok(())) => {}
+        }
+    }
+    #[test]
+    fn key_package_event_of_every_relay_count_is_parsed_back() { for n in [1usize, 2, 3] { key_package_round_trip("strings_bounded.key_package_event_of_every_relay_count_is_parsed_back", n); } }
+    #[test]
+    fn key_package_event_without_relays_is_parsed_back() { key_package_round_trip("strings_bounded.key_package_event_without_relays_is_parsed_back", 0); }
     #[test]
     fn welcome_of_a_group_without_relays_is_parsed_back() { welcome_round_trip("strings_bounded.welcome_of_a_group_without_relays_is_parsed_back", 0); }
 
